@@ -1,7 +1,7 @@
 """C18: parsing is the inverse of printing (MC_Syntax generator + harness printer/comparer)."""
 import json, os, subprocess
 from .common import *
-from . import tlc
+from . import tlc, parse
 from .result import Result
 
 
@@ -35,7 +35,16 @@ def run_syntax(pid, tier):
             res.violation("the parser panics", {"text": m.get("text")})
         if len(res.samples) < 3 and n_mod % 301 == 0:
             res.sample({"gmod_defs": case["gmod"]["defs"][0]["stmts"][:2], "prints": o["prints"]})
-    res.coverage = {"states": st["distinct"], "transitions": st["generated"], "traces_validated_against_impl": n_print,
+    # the language specification: every single-token mutation of the base modules, decided by TLC
+    pst, pcnt, problems = parse.conformance(tier, "c18")
+    for kind, case, pr in problems:
+        res.violation(parse.KINDS[kind] + ": " + json.dumps(pr["detail"])[:300], parse.payload(case, pr))
+    res.coverage = {"states": st["distinct"] + pst["distinct"], "transitions": st["generated"] + pst["generated"], "traces_validated_against_impl": n_print + pcnt["prints"],
+                    "language_spec": {"module": "Parse.tla / MC_Parse.tla", "cfg": pst["cfg"], "tlc_wall_s": pst["wall_s"], **pcnt,
+                                      "invariants": "RoundTrip (ParseToks(print(b)) = b for every base), Decides (total verdict)",
+                                      "rule": "every deletion, neighbour swap, replacement by and insertion of each alphabet token at every position of "
+                                              "every base module; verdict of the specification (abstract module / offending token) compared with "
+                                              "parser::parse_str on the printed text (line and column of the error)"},
                     "tlc": {k2: st[k2] for k2 in ("module", "cfg", "behaviours", "wall_s")}, "checker_cmd": st["cmd"],
                     "evaluations": n_print, "distinct_nontrivial": n_mod, "exhaustive": False,
                     "rule": "abstract modules over the full grammar enumerated by TLC from rotating pools (attribute shapes, types nested to depth 5, "
